@@ -115,12 +115,20 @@ def build_jobs(chk, tx_lite=False, rx_lite=False):
     so_alpha = [dict(api=a, fr=0, send_only=so, fates=list(f)) for a in ("send", "resend") for so in (False, True)
                 for f in ("D", "PP")]
     so_alpha += [dict(api="send", fr=fr, send_only=False, fates=list(f), noload=True) for fr in (0, 1) for f in ("D", "PPD")]   # empty ACKs
+    # a forced retry made with send_only (the first cycle fails, the re-sent payload gets through or does not): what earlier
+    # send_only calls left in the RX FIFO is still there for read() afterwards
+    so_alpha += [dict(api="send", fr=1, send_only=True, fates=list(f)) for f in ("PPD", "PPPP")]
     so_alpha.append(dict(api="txread"))          # the PTX reads the ACK payloads that send_only calls left in its RX FIFO
     so_hist = list(itertools.product(so_alpha, repeat=3))
     if quick:
         so_hist = rng.sample(so_hist, 300)
     for cs in so_hist:
         add(dict(arc=1, ard=250, ackpl=True), list(cs))
+    for second in (dict(api="send", fr=1, send_only=True, fates=list("PPD")), dict(api="send", fr=2, send_only=True, fates=list("PPPPD")),
+                   dict(api="resend", send_only=True, fates=list("D")), dict(api="send", fr=1, send_only=True, fates=list("PPPP"))):
+        add(dict(arc=1, ard=250, ackpl=True), [dict(api="send", fr=0, send_only=True, fates=["D"]), second, dict(api="txread")])
+        add(dict(arc=1, ard=250, ackpl=True), [dict(api="send", fr=0, send_only=True, fates=["D"]), dict(api="send", fr=0, send_only=True, fates=["D"]),
+                                               second, dict(api="txread")])
     # an ACK payload left in the PTX's RX FIFO, a failed call, the application reads its RX FIFO, then the next call
     for fail in (dict(api="send", fr=0, send_only=True, fates=list("PP")), dict(api="send", fr=1, send_only=False, fates=list("PPPP")),
                  dict(api="send", fr=0, send_only=False, fates=list("AA"))):
